@@ -552,6 +552,15 @@ fn gen_inputs(kind: &str, seed: u64, dir: &Path) -> Result<Vec<PathBuf>> {
                 samples.push((format!("b{:02}", s), vec![("c".into(), q)]));
             }
         }
+        "mid" => {
+            // ~100-150 kB of archive with a SMALL directory (segment size above the contig length: a handful of streams), so that
+            // prefixes exist whose trailing 8 bytes read as a plausible directory length (file >= 256 x directory): those get past
+            // the first range check of the reader and make it parse part bytes as a directory
+            for s in 0..2 {
+                let n = 200_000 + rng.gen_range(0..40_000);
+                samples.push((format!("mid{}", s), vec![("c".into(), rand_seq(&mut rng, n))]));
+            }
+        }
         "big" => {
             // > 4 MiB of archive: incompressible-ish random sequence, no similarity between samples
             for s in 0..3 {
@@ -588,7 +597,11 @@ fn list_inputs(dir: &Path) -> Result<Vec<PathBuf>> {
 
 /// The create path of ragc-cli (multi-file mode, main.rs) driven through the library API.
 fn drive_create(inputs: &[PathBuf], out: &Path, threads: usize, kind_big: bool) -> Result<()> {
-    let (k, seg) = if kind_big { (21, 10_000) } else { (K, SEG) };
+    drive_create_ks(inputs, out, threads, if kind_big { (21, 10_000) } else { (K, SEG) })
+}
+
+fn drive_create_ks(inputs: &[PathBuf], out: &Path, threads: usize, ks: (usize, usize)) -> Result<()> {
+    let (k, seg) = ks;
     let config = StreamingQueueConfig {
         k,
         segment_size: seg,
@@ -635,7 +648,8 @@ fn create_cmd(a: &Args) -> Result<()> {
     let out = PathBuf::from(a.get("out")?);
     let threads: usize = a.num("threads", 1);
     let big = a.flag("big");
-    let r = util::catch(AssertUnwindSafe(|| drive_create(&inputs, &out, threads, big)));
+    let ks = (a.num("k", if big { 21 } else { K }), a.num("seg", if big { 10_000 } else { SEG }));
+    let r = util::catch(AssertUnwindSafe(|| drive_create_ks(&inputs, &out, threads, ks)));
     let (class, msg, code) = match r {
         Ok(Ok(())) => ("ok", String::new(), 0),
         Ok(Err(e)) => ("err", format!("{:#}", e), 1),
@@ -672,6 +686,10 @@ fn trace_truncate(a: &Args) -> Result<()> {
     let ps = p.to_string_lossy().to_string();
     let mut out = std::fs::OpenOptions::new().create(true).append(true).open(a.get("out")?)?;
     let huge = (len as usize).saturating_add(1 << 20);
+    // --compact: consecutive offsets with the plain outcome (both opens return an error value, nothing readable, no large
+    // allocation) are merged into one `open_range` record; every other outcome stays an individual `open_prefix` record
+    let compact = a.flag("compact");
+    let mut run: Option<(u64, u64)> = None; // (lo, hi) of the current plain run (descending: lo shrinks)
     let mut n = to;
     while n > from {
         n -= 1;
@@ -703,7 +721,21 @@ fn trace_truncate(a: &Args) -> Result<()> {
         let ev = json!({"ev": "open_prefix", "n": n, "len": len, "a": ac, "d": dc, "streams": h.unwrap_or(0),
             "samples": d.map(|x| x.0).unwrap_or(0), "readable": d.map(|x| x.1).unwrap_or(0),
             "huge": is_prefix && MAX_REQ.load(Ordering::Relaxed) > huge, "maxalloc": maxalloc, "amsg": amsg, "dmsg": dmsg});
+        let plain = is_prefix && ac == "err" && dc == "err" && ev["readable"] == json!(0) && ev["huge"] == json!(false);
+        if compact && plain {
+            run = Some(match run {
+                Some((_, hi)) => (n, hi),
+                None => (n, n),
+            });
+            continue;
+        }
+        if let Some((lo, hi)) = run.take() {
+            writeln!(out, "{}", json!({"ev": "open_range", "lo": lo, "hi": hi, "len": len}))?;
+        }
         writeln!(out, "{}", ev)?;
+    }
+    if let Some((lo, hi)) = run.take() {
+        writeln!(out, "{}", json!({"ev": "open_range", "lo": lo, "hi": hi, "len": len}))?;
     }
     Ok(())
 }
